@@ -87,8 +87,7 @@ def execute(task, package_dir):
             summary["error"] = reference.error
             return summary
         if reference.status == "crash":
-            summary["violations"].append({"property": ID, "oracle": "crash", "step": reference.events,
-                                          "detail": {"traceback": (reference.error or "")[-2500:]}})
+            summary["violations"].append(common.crash_violation(ID, reference))
             summary["status"] = "violation"
             return summary
         dumps = saver_box["saver"].dumps
